@@ -308,10 +308,49 @@ def task_vector_points():
 task_vector_points.contract_fn = "calculus.Derivate.curve"
 
 
+# --------------------------------------------------------------------------------------
+# engine B: EXACT data (Fraction knots and control points) of large magnitude on multi-span curves: the derivative is the exact rational derivative (a float64
+# detour in the difference factors loses it completely when the control points cancel: D42)
+# --------------------------------------------------------------------------------------
+def task_exact_large():
+    fn = "calculus.Derivate.curve"
+    out = []
+    cases = {"p2-one-knot": (2, (1, 0, 0)), "p3-double": (3, (2, 0, 0)), "p1-two-knots": (1, (1, 1, 0)), "p2-discontinuous": (2, (3, 0, 0))}
+    big = F(10 ** 17)
+    for name, (p, cells) in cases.items():
+        U = vec(p, cells, 1)
+        n = len(U) - p - 1
+        P = [big + F((-1) ** i * (i * i + 1), 7) for i in range(n)]          # large and nearly equal: the differences cancel 17 digits
+        bad = None
+        try:
+            D = calculus.Derivate(curves.Curve(list(U), list(P)))
+            cuts = sorted(set(U))
+            for a, b in zip(cuts[:-1], cuts[1:]):
+                for s_ in (1, 2):
+                    u = a + (b - a) * F(s_, 3)
+                    k = spec.spec_span(list(U), p, u)
+                    N = spec.cdb(list(U), p, k, spec.Poly.X())[:n]
+                    exp = sum((N[i] * P[i] for i in range(n)), spec.Poly()).deriv()(u)
+                    got = D(u)
+                    if abs(F(got) - exp) > F(1, 10 ** 9) * max(1, abs(exp)):
+                        bad = "D(%s) = %r, the derivative is %s" % (u, got, exp)
+                        break
+                if bad:
+                    break
+        except Exception as e:
+            bad = "%s: %s" % (type(e).__name__, str(e)[:100])
+        out.append(ob("%s:exact-large-data[%s]" % (fn, name), fn, FAILED if bad else PROVED, "B", "concrete", 0.0,
+                      bad or "the derivative (to 1e-9 of its own size) at 2 parameters per span for exact control points 1e17 + small", dict(kind="c09.exactlarge", case=name) if bad else None))
+    return out + [{"_stats": dict(cases=len(out))}]
+
+
+task_exact_large.contract_fn = "heavy.Calculus.difference_vector"
+
+
 def tasks(tier, seed):
     from ..pyvc.driver import verify
     from ..contracts import misc
-    ts = [(task_vector_points, ()),
+    ts = [(task_vector_points, ()), (task_exact_large, ()),
           (verify, (misc.DIFFERENCE_VECTOR, "heavy", "Calculus.difference_vector", None)),
           (verify, (misc.DIFFERENCE_MATRIX, "heavy", "Calculus.difference_matrix", None)),
           (verify, (misc.DERIV_BEZIER, "heavy", "Calculus.derivate_nonrational_bezier", None))]
@@ -329,6 +368,9 @@ def replay(o):
     if w.get("kind") == "c09.int":
         r = [x for x in task_int_knots() if "id" in x and x["id"].endswith("[%s,%s]" % (w["case"], w["conv"]))][0]
         return r["status"] == FAILED, "derivative of the curve on integer knots", r["detail"]
+    if w.get("kind") == "c09.exactlarge":
+        r = [x for x in task_exact_large() if "id" in x and x["id"].endswith("[%s]" % w["case"])][0]
+        return r["status"] == FAILED, "the exact rational derivative", r["detail"]
     if w.get("kind") == "c09.vector":
         r = [x for x in task_vector_points() if "id" in x and x["id"].endswith("[%s,%s]" % (w["case"], "rat" if w["rational"] else "pol"))][0]
         return r["status"] == FAILED, "derivative in every coordinate of a curve with 3-D control points", r["detail"]
